@@ -67,6 +67,12 @@ def cases(tier, seed):
                         yield dict(kind="dataarray", nn=nn, ne=ne, order=order, named=named, nx=nx)
             for nx in (0, 2):
                 yield dict(kind="roundtrip", nn=nn, ne=ne, nx=nx)
+            for axes in ("f32_e", "int_e", "f32_n", "int_n"):
+                yield dict(kind="roundtrip", nn=nn, ne=ne, nx=0, axes=axes)
+            # almost-meshgrids over very elongated regions (1e5 to 1): the shear is far below 1e-5 of the LARGEST coordinate but not of
+            # the coordinate it changes (seed C18-9: one absolute tolerance for both axes)
+            for bad in ("shear_wide", "shear_tall"):
+                yield dict(kind="invalid", nn=max(nn, 2), ne=max(ne, 2), bad=bad)
 
 
 def _values(v, nn, ne, dt, mem="C"):
@@ -186,6 +192,21 @@ def run(case, rec):
         return
     if kind == "roundtrip":
         extras = tuple(_values(5 + k, nn, ne, "float") for k in range(case["nx"]))
+        axes = case.get("axes")
+        if axes:
+            # axis vectors of DIFFERENT dtypes and magnitudes (seed C18-10: one output array allocated like the other): float32 or
+            # integer easting next to float64 northings of 7.5e6 that float32 cannot hold, and the reverse
+            big = 7500000.0 + np.arange(nn, dtype=float) * 0.13
+            small = np.arange(ne, dtype=float) * 2.0 + 1.0
+            if axes == "f32_e":
+                east, north = small.astype(np.float32), big
+            elif axes == "int_e":
+                east, north = small.astype(np.int64), big
+            elif axes == "f32_n":
+                east, north = 500000.0 + np.arange(ne, dtype=float) * 0.07, (np.arange(nn, dtype=float) * 3.0).astype(np.float32)
+            else:
+                east, north = 500000.0 + np.arange(ne, dtype=float) * 0.07, np.arange(nn, dtype=np.int32) * 3
+            e2, n2 = np.meshgrid(east, north)     # numpy keeps each axis' own dtype
         c2 = (e2, n2) + extras
         one = call(rec, vd.utils.meshgrid_to_1d, c2)
         if raised(one):
@@ -196,6 +217,10 @@ def run(case, rec):
         if raised(two):
             return rec.check(False, "meshgrid_from_1d raised %r" % (two,))
         rec.check(len(two) == len(c2) and all(np.array_equal(a, b) for a, b in zip(two, c2)), "meshgrid_from_1d(meshgrid_to_1d(c)) != c")
+        if axes:
+            direct = call(rec, vd.utils.meshgrid_from_1d, (east, north) + extras)
+            rec.check(not raised(direct) and np.array_equal(np.asarray(direct[0], dtype=float), e2.astype(float)) and np.array_equal(np.asarray(direct[1], dtype=float), n2.astype(float)),
+                      "meshgrid_from_1d of axes with dtypes %s / %s does not repeat the axis values exactly" % (east.dtype, north.dtype))
         three = call(rec, vd.utils.meshgrid_to_1d, two)
         rec.check(not raised(three) and all(np.array_equal(a, b) for a, b in zip(three, one)), "meshgrid_to_1d(meshgrid_from_1d(c)) != c")
         # arrays -> grid -> table returns the raveled inputs
@@ -232,6 +257,14 @@ def run(case, rec):
             e_col = (east[0] + 2.0 * np.arange(nn, dtype=float))[:, None]; n_col = north[:, None].copy()
             d_col = data[:, :1]
             f = (lambda: vd.make_xarray_grid((e_col, n_col), d_col, "d")) if bad == "col_e_varies" else (lambda: vd.utils.meshgrid_to_1d((e_col, n_col)))
+        elif bad in ("shear_wide", "shear_tall"):
+            if bad == "shear_wide":
+                ew, nw = np.meshgrid(np.linspace(0.0, 1.0e5, ne), np.linspace(0.0, 1.0, nn))
+                nw = nw + 0.1 * np.arange(ne)[None, :] / max(ne - 1, 1)          # northing drifts by 0.1 along each row
+            else:
+                ew, nw = np.meshgrid(np.linspace(0.0, 1.0, ne), np.linspace(0.0, 2.0e5, nn))
+                ew = ew + 0.05 * np.arange(nn)[:, None] / max(nn - 1, 1)         # easting drifts by 0.05 down each column
+            f = lambda: vd.make_xarray_grid((ew, nw), data, "d")
         elif bad == "mixed":
             f = lambda: vd.make_xarray_grid((east, n2), data, "d")
         elif bad == "names_short":
